@@ -34,6 +34,7 @@ assignment table is rebuilt by every load_allocations.
 Fifth round: C06.2 the setter of the utilisation cap stores a given value whatever it is and falls back to the default only under is None; C06.7 an allocations event reads the assignment table again before the instances are re-assigned, and always re-assigns them.
 Sixth round: C06.2 the accumulated demand of both generators grows by the demand of the current instance once per iteration and is never taken back, and the utilisation after an instance is carried to the next one on every path; C06.5 load_app hands every instance, new or known, to Cell.add_app with the allocation find_assignment returned.
 Seventh round: C06.7 assignments are filed and looked up under the same key expression (subscript, .get and `in` forms alike), and an event of the watch batch is dispatched whenever its resource has a handler - nothing else decides.
+Eighth round: C06.5 the routine that schedules a partition hands its queue to the placement loop on every path (no fast path before it); C06.7 the pattern compiled for an assignment is the recorded pattern followed by '#' and ten digits.
 Does NOT decide rank monotonicity and per-allocation order through the
 recursive re-scored merge (numeric, depends on the whole tree) - the larger
 half of the property.
